@@ -47,6 +47,26 @@ def check_adapter(facts, rep, rid):
                                          "peer (e.g. a peer's Close never starts the teardown and every pending call hangs)" % problems[0])
             else:
                 rep.ok(rid, key, where, "one receive per call, conversion only")
+        if it.endswith("ws::WebSocket") and b.name in ("start_send_unpin", "poll_ready_unpin", "poll_flush_unpin", "poll_close_unpin"):
+            rep.analysed(b)
+            where = "%s (%s)" % (loc_str(b.loc), b.path)
+            key = "adapter-send/%s/%s" % ((b.j.get("impl_self") or {}).get("s", "?").split("<")[0], b.name)
+            problems = []
+            for nb in nested_bodies(facts, b):
+                tr = Tracer(facts, nb)
+                for gb in range(len(nb.blocks)):
+                    if nb.term(gb)["k"] != "SwitchInt":
+                        continue
+                    g = guard_at(facts, nb, tr, gb)
+                    if g is not None and g.kind == "discr" and not (g.adt or "").endswith(("poll::Poll", "option::Option")) and \
+                            not (g.adt or "").startswith("penguin_mux::"):
+                        problems.append("branches on `%s`" % g.adt)
+            if problems:
+                rep.bad(rid, key, where, "%s %s: the outcome of the underlying sink call is not handed on as it is (an error kind turned into "
+                                         "success means a message the library did not queue is reported as sent - a frame silently disappears "
+                                         "from the middle of a stream)" % (b.name, problems[0]))
+            else:
+                rep.ok(rid, key, where, "result of the underlying call, converted", nontrivial=False)
         if b.name == "from" and it.startswith("core::convert::From<") and (b.j.get("impl_self") or {}).get("s") == "ws::Message" and "Message" in it \
                 and "bytes::Bytes" not in it:
             tr = Tracer(facts, b)
